@@ -8,6 +8,7 @@ CONSTANTS
   ConnSets <- CS_full
   MaxSeq = 3
   MaxSteps = 10
+  WithExpire = FALSE
   DumpHist = TRUE
 INVARIANTS
   TypeOK
